@@ -254,7 +254,8 @@ CreateTypeIR(reg, S, e, derives, attrs) ==
               item |-> Item("enum", Ident(e.path), generics, derives, attrs, DocsOf(S, e.docs), "", <<>>, vs)]
 
 \* two same-path types can share one generated item iff their candidate items coincide
-CandidateItem(reg, S, id) == CreateTypeIR(reg, S, Ty(reg, id), {}, {})
+CandidateItem(reg, S, id) == IF IsNamedDef(Ty(reg, id).def) THEN CreateTypeIR(reg, S, Ty(reg, id), {}, {})
+                             ELSE [err |-> "", errid |-> -1, item |-> Item("builtin", "", <<>>, {}, {}, <<>>, "", <<>>, <<>>)]
 \* ... up to Box at field level, which is transparent on the wire
 UnboxItemWith(S, it) == [it EXCEPT !.fields = [i \in DOMAIN @ |-> [@[i] EXCEPT !.ty = Unbox(S, @)]],
                                    !.variants = [v \in DOMAIN @ |-> [@[v] EXCEPT !.fields = [i \in DOMAIN @ |-> [@[i] EXCEPT !.ty = Unbox(S, @)]]]]]
